@@ -51,21 +51,24 @@ Definition spec32_step (cfg : rcfg) (o : rop) (outs : list rout) (p d : amap pen
      | Some e' => if N.eqb (p_id e') (p_id (snd e)) then
                     (* the queue only grows at the end, by a cache operation *)
                     match o with
-                    | RCache _ _ => true
+                    | RCache _ _ | RRespQ _ _ => true
                     | _ => store_eqb (p_store e') (p_store (snd e))
                     end
-                  else match o with RWrong a _ => N.eqb a (fst e) | _ => false end
+                  else match o with RWrong a _ | RWrongQ a _ _ => N.eqb a (fst e) | _ => false end
      | None =>
          match o with
-         | RComplete a => N.eqb a (fst e)
+         | RComplete a | RCompleteQ a _ => N.eqb a (fst e)
          | RTick _ => true     (* checked in [timing_step] for handshakes with a single timer entry *)
          | RTrigger a => N.eqb a (fst e) && (r_retries cfg <=? p_counter (snd e)) &&
                          negb (existsb (is_send_of (p_id (snd e))) outs)
          | _ => false
          end
      end) p &&
+  (* the queue a packet accepted by cachePacket leaves behind *)
+  let queued (e : pent) (k : pkt) : list pkt :=
+    if (N.of_nat (length (p_store e)) <? maxCachedPackets)%N then p_store e ++ [k] else p_store e in
   match o with
-  | RCache a k =>
+  | RCache a k | RRespQ a k =>
       match mget a p, mget a d with
       | Some e, Some e' =>
           if (N.of_nat (length (p_store e)) <? maxCachedPackets)%N
@@ -96,6 +99,29 @@ Definition spec32_step (cfg : rcfg) (o : rop) (outs : list rout) (p d : amap pen
           else true
       | None => true
       end
+  | RCompleteQ a k =>
+      (* a packet queued between the receipt of the stage 2 and Complete: every packet cachePacket stored is sent
+         exactly once, in order, if the firewall allows it *)
+      match mget a p with
+      | Some e =>
+          if p_ready e then
+            list_eqb N.eqb (data_tags outs) (map k_tag (filter (fw_allows cfg) (queued e k))) &&
+            match mget a d with None => true | Some _ => false end && negb (mem (p_id e) di)
+          else true
+      | None => true
+      end
+  | RWrongQ a v k =>
+      match mget a p with
+      | Some e =>
+          if p_ready e then
+            match mget a d with
+            | Some e' => negb (N.eqb (p_id e') (p_id e)) && store_eqb (p_store e') (queued e k) &&
+                         (p_counter e' =? 0) && negb (mem (p_id e) di)
+            | None => false
+            end && negb (existsb is_data outs)
+          else true
+      | None => true
+      end
   | _ => negb (existsb is_data outs)       (* queued packets leave only on completion *)
   end.
 
@@ -111,7 +137,7 @@ Definition counter_of (m : amap pent) (a : N) : option Z :=
 Definition timing_step (cfg : rcfg) (o : rop) (outs : list rout) (p d : amap pent) (t : tstate) : tstate * bool :=
   let I := r_interval cfg in
   match o with
-  | RStart a _ | RCache a _ =>
+  | RStart a _ | RCache a _ | RRespQ a _ =>
       match mget a p, mget a d, t_last t with
       | None, Some _, Some n =>
           if mem a (t_seen t) then (mkT (t_last t) (t_seen t) (mdel a (t_clean t)), true)
@@ -120,8 +146,8 @@ Definition timing_step (cfg : rcfg) (o : rop) (outs : list rout) (p d : amap pen
       | _, _, _ => (t, true)
       end
   | RTrigger a => (mkT (t_last t) (t_seen t) (mdel a (t_clean t)), true)
-  | RWrong a _ => (mkT (t_last t) (t_seen t) (mdel a (t_clean t)), true)
-  | RComplete a => (mkT (t_last t) (t_seen t) (mdel a (t_clean t)), true)
+  | RWrong a _ | RWrongQ a _ _ => (mkT (t_last t) (t_seen t) (mdel a (t_clean t)), true)
+  | RComplete a | RCompleteQ a _ => (mkT (t_last t) (t_seen t) (mdel a (t_clean t)), true)
   | RSetRemotes _ _ => (t, true)
   | RTick now =>
       (* which clean addresses had a timer-driven call in this tick: their counter moved, or they timed out *)
